@@ -7,7 +7,8 @@
    (ThickSegment::is_skeleton) was DRAWN along its right edge but BOXED by its left edge, and a drawn pixel could lie
    outside the box (finding K02_thick_skeleton_bbox, FINDINGS-C02-join.md; found by the search p_thick_bbox).  The model
    follows the repaired code; the formerly failing input is part of the non-vacuity example below. *)
-From EG Require Import Base.Prelude Model.Geometry Model.Line Model.Thickline Model.Join Proofs.Join Proofs.JoinHull Proofs.JoinDraw.
+From EG Require Import Base.Prelude Model.Geometry Model.Style Model.Line Model.Thickline Model.Join Model.JoinTri.
+From EG Require Import Proofs.Join Proofs.JoinTri Proofs.JoinHull Proofs.JoinDraw Proofs.JoinTriDraw.
 Set Default Timeout 60.
 
 (* every corner of every segment that is not a skeleton, and the drawn (right) edge of every skeleton, lies in the box *)
@@ -41,6 +42,18 @@ Theorem C02_join_polyline_drawn_in_bbox_partial : forall pts w segs ls s p,
   poly_scanlines pts w = Some ls -> In s ls -> In p (sl_points s) ->
   contains (segments_bounding_box segs) p = true.
 Proof. exact poly_drawn_in_bbox. Qed.
+
+(* stroked triangles, Center / Outside alignment, width >= 2 (the cases in which the styled bounding box is the box of the
+   thick segments): every point of every STROKE line of every row - the stroke pixels of pixels() and draw() - lies in the
+   styled bounding box.  Not covered: the fill lines (rows without stroke intersections take Triangle::scanline_intersection,
+   whose relation to the box of the stroke is not proved), Inside alignment and widths < 2 (box = Triangle::bounding_box),
+   skeleton segments. *)
+Theorem C02_join_triangle_stroke_in_bbox_partial : forall t w al hf segs rs row s p, al <> Inside -> 2 <= w ->
+  tri_segs (jt_sorted_clockwise t) w (so_of_alignment al) = Some segs ->
+  existsb is_skeleton segs = false -> Forall seg_ok segs ->
+  jt_rows t w al hf = Some rs -> In row rs -> In (s, PStroke) row -> In p (sl_points s) ->
+  contains (segments_bounding_box segs) p = true.
+Proof. exact tri_stroke_in_bbox. Qed.
 
 (* the geometric core: the scanline of a thick segment stays inside the x hull of the corners of its two joins *)
 Theorem C02_join_thick_segment_scanline_in_hull : forall lo hi t y,
